@@ -1019,6 +1019,41 @@ theorem unmodified_text_message_any_cuts (fs : Nat) (pol : Policy) (s : St) (fc 
   intro _ pf hpf
   exact decoder_output_is_utf8 cs (fr.map (·.1)) p' hdec pf.1 (List.mem_map.mpr ⟨pf, hpf, rfl⟩)
 
+/-- **C28 (wire, text cut anywhere).** The frames of a text message whose payloads are cut at
+    ARBITRARY byte positions (inside characters too), with any masking keys and length forms: if
+    wsproto's decoder accepts them (the text is UTF-8), the receiving endpoint's events are the
+    decoder's pieces with the frames' FIN flags, and they reassemble to exactly one text message
+    whose content is the concatenation of the frame payloads.  (Removes the "text frames end on
+    character boundaries" assumption of `message_wire_roundtrip`.) -/
+theorem text_message_wire_roundtrip_any_cuts (client : Bool) (keys : Nat → Option Bytes)
+    (cs outs : List Bytes) (p' : Bytes) (fuel : Nat) (hne : cs ≠ []) (hk : Wire.KeysOk client keys)
+    (hsz : ∀ c ∈ cs, c.length < 9223372036854775808) (hfuel : cs.length < fuel)
+    (hdec : decodeChunks [] cs = some (outs, p')) :
+    Wire.streamEventsU client Wire.noExt fuel none []
+        ((Wire.dataFrames true keys 0 true (flagged cs)).flatMap Wire.encodeFrame)
+      = some ((flagged outs).map (fun pf => WsEv.msg true pf.1 true pf.2)) ∧
+    Wire.reassemble none ((flagged outs).map (fun pf => WsEv.msg true pf.1 true pf.2)) = [(true, cs.flatten)] := by
+  have hlen : (flagged cs).length = cs.length := by
+    have := congrArg List.length (Wire.flagged_map_fst cs); simpa using this
+  have hsz' : ∀ pf ∈ flagged cs, pf.1.length < 9223372036854775808 := by
+    intro pf hpf
+    apply hsz
+    have : pf.1 ∈ (flagged cs).map (·.1) := List.mem_map.mpr ⟨pf, hpf, rfl⟩
+    rwa [Wire.flagged_map_fst] at this
+  have houts : outs ≠ [] := by
+    have := Wire.decodeChunks_length cs [] (outs, p') hdec
+    intro h; subst h; simp at this; exact hne (List.length_eq_zero_iff.mp this.symm)
+  constructor
+  · rw [Wire.streamEventsU_encode client Wire.noExt _ (Wire.dataFrames_ok client true keys (flagged cs) hk hsz' 0 true)
+        fuel none [] (by rw [Wire.dataFrames_length, hlen]; exact hfuel)]
+    have := Wire.dataFrames_eventsU keys cs hne 0 true []
+    simp only [if_true] at this
+    rw [this, hdec]
+    rfl
+  · rw [Wire.reassemble_burst true (flagged outs) (Wire.flagged_wellFramed outs houts) none]
+    simp only [Wire.flagged_map_fst]
+    rw [(text_frames_cut_anywhere cs outs p' hne hdec).1]
+
 /-! ### non-vacuity: concrete runs computed by the kernel -/
 
 -- "a" ++ "é"×3 as text with FRAGMENT_SIZE 4: the cut at byte 4 would split the second "é";
